@@ -634,6 +634,7 @@ def show_pattern(p):
         if o == "if": return "IF(%s, %s, %s)" % (ex(e["c"]), ex(e["a"]), ex(e["b"]))
         if o == "substr": return "SUBSTR(%s)" % ", ".join(ex(e[k]) for k in ("a", "b", "c") if k in e)
         if "b" not in e: return "%s(%s)" % (o, ex(e["a"]))
+        if o in ("neg", "pos"): return "%s(%s)" % ("-" if o == "neg" else "+", ex(e["a"]))
         ops = {"or": "||", "and": "&&", "eq": "=", "lt": "<", "ne": "!=", "gt": ">", "le": "<=", "ge": ">=", "add": "+", "sub": "-", "mul": "*"}
         if o in ops: return "(%s %s %s)" % (ex(e["a"]), ops[o], ex(e["b"]))
         return "%s(%s, %s)" % (o, ex(e["a"]), ex(e["b"]))
